@@ -972,6 +972,9 @@ func c12Burst(p *Plan, run *Run) any {
 	}
 	first := make([][]string, ng)
 	mism := make([]string, ng)
+	// when a burst plan is replayed (or re-checked by the minimiser) it is given
+	// more repetitions: the plan is the same, only the exposure is longer
+	reps := min(pl.Burst*envInt("VERIF_BURST_BOOST", 1), 40000)
 	prev := runtime.GOMAXPROCS(8)
 	start := make(chan struct{})
 	var wg sync.WaitGroup
@@ -980,7 +983,7 @@ func c12Burst(p *Plan, run *Run) any {
 		go func(g int) {
 			defer wg.Done()
 			<-start
-			for r := 0; r < pl.Burst; r++ {
+			for r := 0; r < reps; r++ {
 				for i, op := range pl.Ops[g] {
 					res := env.execOp(g, op, false)
 					if r == 0 {
@@ -1012,7 +1015,7 @@ func c12Burst(p *Plan, run *Run) any {
 	}
 	for g := 0; g < ng; g++ {
 		if mism[g] != "" {
-			run.Violation("c12/result-differs", pl.Ops[g][0].Op, "parallel burst (goroutines truly in parallel, not replayable exactly): "+mism[g], nil)
+			run.Violation("c12/result-differs", "parallel-burst", "parallel burst (goroutines truly in parallel, not replayable exactly): "+mism[g], nil)
 			return nil
 		}
 	}
@@ -1020,7 +1023,7 @@ func c12Burst(p *Plan, run *Run) any {
 		for i, op := range pl.Ops[g] {
 			want := env.execOp(g, op, true)
 			if i < len(first[g]) && first[g][i] != want {
-				run.Violation("c12/result-differs", op.Op, fmt.Sprintf("parallel burst (not replayable exactly): goroutine %d op %d (%s a=%d b=%d): result in parallel %q, alone %q", g, i, op.Op, op.A, op.B, clipN(first[g][i], 300), clipN(want, 300)), nil)
+				run.Violation("c12/result-differs", "parallel-burst", fmt.Sprintf("parallel burst (not replayable exactly): goroutine %d op %d (%s a=%d b=%d): result in parallel %q, alone %q", g, i, op.Op, op.A, op.B, clipN(first[g][i], 300), clipN(want, 300)), nil)
 				return nil
 			}
 		}
@@ -1037,7 +1040,7 @@ func clipN(s string, n int) string {
 
 func (c12Prop) ReplayAttempts(p *Plan) int {
 	if p.C12 != nil && p.C12.Burst > 0 {
-		return 12
+		return 40 // real parallelism: each attempt has only some probability of hitting the window
 	}
 	return 1
 }
